@@ -47,6 +47,27 @@ def npow (a : Fix) : Nat → Fix
   | 0 => 1
   | n + 1 => npow a n * a
 
+/-- `exp x` at the working precision: argument halving until `|y| ≤ 1/2`, 48 Taylor terms (remainder < 2⁻²³⁰),
+    then repeated squaring.  Arguments are clamped to `[-4096, 1024]` (results below 2⁻¹⁹² are 0 anyway). -/
+def exp (x : Fix) : Fix :=
+  let x : Fix := if x.m < -(4096 * scale) then ⟨-(4096 * scale)⟩ else if 1024 * scale < x.m then ⟨1024 * scale⟩ else x
+  let a := x.m.natAbs
+  let bl := if a = 0 then 0 else Nat.log2 a + 1
+  let m := bl - (S - 1)
+  let y : Fix := ⟨x.m >>> m⟩
+  let rec taylor (fuel : Nat) (n : Nat) (term acc : Fix) : Fix :=
+    match fuel with
+    | 0 => acc
+    | fuel + 1 =>
+      let term' : Fix := (term * y) / ((n + 1 : Nat) : Fix)
+      taylor fuel (n + 1) term' (acc + term')
+  let e0 := taylor 48 0 1 1
+  let rec sq (fuel : Nat) (v : Fix) : Fix :=
+    match fuel with
+    | 0 => v
+    | fuel + 1 => sq fuel (v * v)
+  sq m e0
+
 /-- short decimal rendering (≈ 12 significant digits) for diagnostics only -/
 def toDecimal (a : Fix) : String :=
   let neg := a.m < 0
